@@ -196,6 +196,15 @@ func composeCases(c *hx.Ctx, r *hx.Rng) {
 		trees = append(trees, randTree(rr, 1+rr.Intn(5), hx.Pick(rr, []int{3, 6, 12}), hx.Pick(rr, []int{50, 3000}), cf))
 		cfs = append(cfs, cf)
 	}
+	// directories with dotted names (regime dir_dotted_collision): the model must reproduce their identifiers
+	// - SHORT alone, colliding siblings numbered - and everything laid out from them
+	for _, t := range dotTrees(c) {
+		switch t.name {
+		case "two", "pairs", "withfiles", "plainvsdotted", "nested", "trailing":
+			trees = append(trees, t.mk(r.Fork()))
+			cfs = append(cfs, cfg{bs: 2048, collide: true})
+		}
+	}
 	for i, root := range trees {
 		k := 1000 + i
 		if (!c.Want(fmt.Sprintf("d/compose/%d", k)) && !c.Want(fmt.Sprintf("d/ptwalk/%d", k))) || root.hasEmptyBase() {
